@@ -13,7 +13,6 @@ for k in 1 2 3; do
   if ! grep -q "exit 1 :: VIOLATION" $D/eval.txt; then
     echo "--- not detected by the claimed checks; running all checks" | tee -a $D/eval.txt
     ALL=$(ls /verif/obligations | sed 's/.json//' | tr '\n' ' ')
-    /verif/tools/seed_eval.sh $ALL 2>/dev/null | tail -0
     /verif/tools/seed_eval.sh $FIRST $D $ALL | grep "^check" | tee -a $D/eval.txt
   fi
 done
